@@ -440,3 +440,33 @@ pub fn cargotoml_main(args: &[String]) {
     }
     let _ = std::fs::remove_dir_all(&base);
 }
+
+/// `testrun <scratch-dir>`: the public `incan test` entry point (`run_tests`) on real test files: one file whose only test passes, one
+/// whose only test fails an assertion, one whose test panics through a division by zero.  Prints `OK|BROKEN <scenario> ..`.
+/// (The runner generates a Cargo project under `target/incan_tests/` relative to the working directory and runs `cargo test` in it.)
+pub fn testrun_main(args: &[String]) {
+    use incan::cli::test_runner::run_tests;
+    let dir = std::path::PathBuf::from(args.first().cloned().unwrap_or_else(|| "/verif/work/testrun".to_string())).join(format!("run-{}", std::process::id()));
+    let _ = std::fs::remove_dir_all(&dir);
+    std::fs::create_dir_all(&dir).expect("scratch dir");
+    std::env::set_current_dir(&dir).expect("cd scratch");
+    let cases = [
+        ("passing", "from testing import assert_eq\n\ndef test_ok() -> None:\n    assert_eq(1 + 1, 2)\n", true),
+        ("failing_assert", "from testing import assert_eq\n\ndef test_bad() -> None:\n    assert_eq(1 + 1, 3)\n", false),
+        ("failing_zero_division", "from testing import assert_eq\n\ndef test_div() -> None:\n    a = 0\n    b = 1 // a\n    assert_eq(b, 0)\n", false),
+    ];
+    for (name, src, should_pass) in cases {
+        let d = dir.join(name);
+        std::fs::create_dir_all(&d).unwrap();
+        std::fs::write(d.join(format!("test_{name}.incn")), src).unwrap();
+        let r = run_tests(d.to_str().unwrap(), false, false, true, None, false, false);
+        let passed = r.is_ok();
+        if passed == should_pass {
+            println!("OK {name} reported as {}", if passed { "passed" } else { "failed" });
+        } else {
+            println!("BROKEN {name} the test function {} but `incan test` reports {}", if should_pass { "passes" } else { "fails" }, if passed { "success" } else { "failure" });
+        }
+    }
+    let _ = std::env::set_current_dir("/");
+    let _ = std::fs::remove_dir_all(&dir);
+}
